@@ -3,10 +3,15 @@
 //!
 //! Nothing here is instantiated for a concrete input kind / error type: that happens in the worker crates
 //! (`workers/*`, one per combination), so that the instantiations compile in parallel.
+//!
+//! Version 3: drop accounting (`val::Tracked`, `val::track`; applied in `worker::run_line` and `hist`), history
+//! cases (`hist`, served by the `str`/`slice` workers), the `tree` input kind with `NestedIn` (`input::TT`,
+//! `build::nested_tree`). The thread cases live in `workers/src/threads.rs` (statically typed grammars).
 
 pub mod ast;
 pub mod build;
 pub mod errs;
+pub mod hist;
 pub mod input;
 pub mod kinds;
 pub mod sexp;
